@@ -1,6 +1,9 @@
-(* Proofs/ParserDoc.v — C15, binding layer: under one guard clause per refutation (and the
-   well-formedness of the exported metadata) every stream of parser events ends in a value
-   or in one of the documented errors. *)
+(* Proofs/ParserDoc.v — C15, binding layer: under one guard clause per (open) refutation and
+   the well-formedness of the exported metadata every stream of parser events ends in a
+   value or in one of the documented errors.
+   Four clauses (all_required_have_defaults, the bytes-wrapper part of xsi_types_ok,
+   tails_blank, init_fields_only) were deleted with their refutations when the defects were
+   repaired in /repo (24a005e, 32d0281, 8cca284). *)
 From Coq Require Import NArith ZArith List Bool Arith Lia.
 From XV Require Import Base.Str Base.Eqb Base.PyInt Model.Bind Model.Parser Model.ParserCorr Spec.Inject
   Proofs.ParserSkip.
@@ -10,28 +13,7 @@ Definition rsafe {A} (r : res A) : Prop :=
   match r with ROk _ => True | RErr k => documented k = true end.
 
 (* ================================================================ guards *)
-(* --- one clause per refutation ------------------------------------------------------ *)
-(* [TMissingArg] every init field has a default *)
-Definition all_required_have_defaults (cfg : pconfig) : bool :=
-  forallb (fun x => match snd x with [] => true | _ => false end) (cf_nodefault cfg).
-
-(* [TBytesWrapper] no element carries an xsi:type that names a datatype with a bytes wrapper class
-   (xs:hexBinary / xs:base64Binary); the same clause asks the converter to answer a QName (or to
-   fail) when it resolves an xsi:type value *)
-Definition xsi_ok_at (c : conv) (attrs : list (qname * str)) (ns : nsmap) : bool :=
-  match xsi_type_of c attrs ns with
-  | ROk (Some x) => match c_from_qname c x with Some (_, _, Some _) => false | _ => true end
-  | ROk None => true
-  | RErr ModelGap => false
-  | RErr _ => true
-  end.
-Definition xsi_types_ok (c : conv) (d : list pevent) : bool :=
-  forallb (fun ev => match ev with PStart _ attrs ns => xsi_ok_at c attrs ns | _ => true end) d.
-
-(* [TNoneQname] no character data after a child element *)
-Definition tails_blank (d : list pevent) : bool :=
-  forallb (fun ev => match ev with PEnd _ _ tl => negb (is_some (normalize_content tl)) | _ => true end) d.
-
+(* --- one clause per open refutation ------------------------------------------------- *)
 (* [PyIndexError] no `end` without an open element *)
 Fixpoint well_nested_from (depth : nat) (d : list pevent) : bool :=
   match d with
@@ -42,11 +24,16 @@ Fixpoint well_nested_from (depth : nat) (d : list pevent) : bool :=
   end.
 Definition well_nested (d : list pevent) : bool := well_nested_from 0 d.
 
-(* [TUnexpectedKw] every field the parser can put into params is an init field *)
-Definition has_init_name (m : xmeta) (v : xvar) : bool :=
-  existsb (fun w => v_init w && str_eqb (v_name w) (v_name v)) (get_all_vars m).
-Definition kw_safe (m : xmeta) : bool :=
-  forallb (fun v => has_init_name m v || negb (v_init v || v_is KWildcard v || v_is KAttributes v)) (deep_vars m).
+(* --- validity of the converter parameter: resolving an xsi:type value yields a QName or fails
+   (the model answers ModelGap otherwise; always true of the real converter, checked per case
+   for the recorded tables) *)
+Definition xsi_ok_at (c : conv) (attrs : list (qname * str)) (ns : nsmap) : bool :=
+  match xsi_type_of c attrs ns with
+  | RErr ModelGap => false
+  | _ => true
+  end.
+Definition xsi_types_ok (c : conv) (d : list pevent) : bool :=
+  forallb (fun ev => match ev with PStart _ attrs ns => xsi_ok_at c attrs ns | _ => true end) d.
 
 (* --- well-formedness of exported metadata (checked on every real universe by the harness) -- *)
 Definition var_role (v : xvar) : N :=
@@ -67,7 +54,7 @@ Definition kinds_ok (m : xmeta) : bool :=
   && forallb (v_is KWildcard) (m_wildcards m)
   && forallb (fun ch => forallb (fun kv => elemish (snd kv)) (v_elements ch) && forallb elemish (v_wildcards ch))
              (m_choices m ++ m_wildcards m).
-Definition meta_ok (m : xmeta) : bool := kinds_ok m && names_ok m && kw_safe m.
+Definition meta_ok (m : xmeta) : bool := kinds_ok m && names_ok m.
 
 Definition has_meta (u : universe) (cl : cls) : bool := is_some (u_meta u cl).
 Definition var_closed (u : universe) (v : xvar) : bool :=
@@ -255,7 +242,6 @@ Qed.
 Definition node_inv (u : universe) (n : node) : Prop :=
   match n with
   | NElement en => exists cl, In (cl, en_meta en) (u_metas u)
-  | NStandard _ _ _ _ wr _ _ _ => wr = None
   | _ => True
   end.
 Definition built_ok (u : universe) (n : node) : Prop :=
@@ -361,15 +347,12 @@ Section Build.
       { intros cl Hin. rewrite forallb_forall in Hty. exact (Hty _ Hin). }
       cbn [rbind]. split; exact I.
     - pose proof (xsi_type_safe attrs ns Hxo) as Hx.
-      unfold xsi_ok_at in Hxo.
       destruct (xsi_type_of c attrs ns) as [xt|k]; cbn [rbind]; [|exact Hx].
       destruct (v_clazz var) as [cl|].
       + apply build_element_node_ok. exact Hcl.
       + destruct (negb (v_any_type var) && negb (v_is KWildcard var)); [split; exact I|].
         destruct (match xt with Some x => c_from_qname c x | None => None end) as [[[ty fmt] wr]|] eqn:Hdt.
-        * split; [|exact I]. cbn [node_inv].
-          destruct xt as [x|]; [|discriminate]. rewrite Hdt in Hxo.
-          destruct wr; [discriminate|reflexivity].
+        * split; exact I.
         * set (cl1 := match xt with Some x => ctx_find_type c u x | None => None end).
           assert (H1 : forall cl, cl1 = Some cl -> has_meta u cl = true).
           { intros cl. unfold cl1. destruct xt as [x|]; [|discriminate]. apply ctx_find_type_closed. }
@@ -506,10 +489,8 @@ Section BindSafe.
   Hypothesis Hm : meta_ok m = true.
 
   Lemma m_kinds : kinds_ok m = true.
-  Proof. unfold meta_ok in Hm. apply andb_true_iff in Hm as [H _]. apply andb_true_iff in H as [H _]. exact H. Qed.
+  Proof. unfold meta_ok in Hm. apply andb_true_iff in Hm as [H _]. exact H. Qed.
   Lemma m_names : names_ok m = true.
-  Proof. unfold meta_ok in Hm. apply andb_true_iff in Hm as [H _]. apply andb_true_iff in H as [_ H]. exact H. Qed.
-  Lemma m_kw : kw_safe m = true.
   Proof. unfold meta_ok in Hm. apply andb_true_iff in Hm as [_ H]. exact H. Qed.
 
   Definition shape (r : N) (pv : pval) : Prop :=
@@ -521,16 +502,16 @@ Section BindSafe.
 
   Definition PInv (p : params) : Prop :=
     forall n pv, In (n, pv) p ->
-      exists var, In var (deep_vars m) /\ v_name var = n /\ shape (var_role var) pv /\ has_init_name m var = true.
+      exists var, In var (deep_vars m) /\ v_name var = n /\ shape (var_role var) pv.
 
   Lemma PInv_nil : PInv [].
   Proof. intros n pv []. Qed.
 
   Lemma PInv_pset p var pv :
-    PInv p -> In var (deep_vars m) -> shape (var_role var) pv -> has_init_name m var = true ->
+    PInv p -> In var (deep_vars m) -> shape (var_role var) pv ->
     PInv (pset (v_name var) pv p).
   Proof.
-    intros Hp Hv Hs Hi n x Hin. destruct (In_pset _ _ _ _ _ Hin) as [[-> ->]|H]; [|exact (Hp _ _ H)].
+    intros Hp Hv Hs n x Hin. destruct (In_pset _ _ _ _ _ Hin) as [[-> ->]|H]; [|exact (Hp _ _ H)].
     exists var. repeat split; assumption.
   Qed.
 
@@ -541,25 +522,18 @@ Section BindSafe.
     rewrite Hn, str_eqb_refl in H. cbn [negb orb] in H. apply N.eqb_eq. exact H.
   Qed.
 
-  Lemma init_of var :
-    In var (deep_vars m) -> v_init var || v_is KWildcard var || v_is KAttributes var = true -> has_init_name m var = true.
-  Proof.
-    intros Hv Hw. pose proof m_kw as H. unfold kw_safe in H. rewrite forallb_forall in H. specialize (H _ Hv).
-    rewrite Hw in H. cbn [negb] in H. rewrite orb_false_r in H. exact H.
-  Qed.
-
   Lemma stored_shape p var pv :
     PInv p -> In var (deep_vars m) -> pget (v_name var) p = Some pv -> shape (var_role var) pv.
   Proof.
-    intros Hp Hv Hg. destruct (Hp _ _ (pget_In _ _ _ Hg)) as [w [Hw [Hn [Hs _]]]].
+    intros Hp Hv Hg. destruct (Hp _ _ (pget_In _ _ _ Hg)) as [w [Hw [Hn Hs]]].
     rewrite (role_eq var w Hv Hw (eq_sym Hn)). exact Hs.
   Qed.
 
   Lemma coll_append_ok var f x p :
-    PInv p -> In var (deep_vars m) -> var_role var = 1%N -> has_init_name m var = true ->
+    PInv p -> In var (deep_vars m) -> var_role var = 1%N ->
     exists p', coll_append (v_name var) f x p = ROk p' /\ PInv p'.
   Proof.
-    intros Hp Hv Hr Hi. unfold coll_append.
+    intros Hp Hv Hr. unfold coll_append.
     assert (Hnew : forall pv, shape 1 pv -> PInv (pset (v_name var) pv p)).
     { intros pv Hs. apply PInv_pset; try assumption. rewrite Hr. exact Hs. }
     destruct (pget (v_name var) p) as [pv|] eqn:Hg.
@@ -571,10 +545,10 @@ Section BindSafe.
   Qed.
 
   Lemma coll_insert0_ok var f x p :
-    PInv p -> In var (deep_vars m) -> var_role var = 1%N -> has_init_name m var = true ->
+    PInv p -> In var (deep_vars m) -> var_role var = 1%N ->
     exists p', coll_insert0 (v_name var) f x p = ROk p' /\ PInv p'.
   Proof.
-    intros Hp Hv Hr Hi. unfold coll_insert0.
+    intros Hp Hv Hr. unfold coll_insert0.
     assert (Hnew : forall pv, shape 1 pv -> PInv (pset (v_name var) pv p)).
     { intros pv Hs. apply PInv_pset; try assumption. rewrite Hr. exact Hs. }
     destruct (pget (v_name var) p) as [pv|] eqn:Hg.
@@ -606,9 +580,8 @@ Section BindSafe.
     destruct (parse_var c (fail_conv_warnings cfg) (en_meta en) var (Some sval) (en_ns en) None None) as [[v ws]|k];
       cbn [rbind]; [|exact Hs].
     destruct (v_init var) eqn:Hi.
-    - cbn [fst]. apply PInv_pset; [exact Hp|exact (deep_attr m q var Hf)| |].
-      + unfold var_role. rewrite (kind_attr m m_kinds q var Hf). cbn. eauto.
-      + apply init_of; [exact (deep_attr m q var Hf)|]. rewrite Hi. reflexivity.
+    - cbn [fst]. apply PInv_pset; [exact Hp|exact (deep_attr m q var Hf)|].
+      unfold var_role. rewrite (kind_attr m m_kinds q var Hf). cbn. eauto.
     - pose proof (validate_fixed_safe var v) as Hv.
       destruct (validate_fixed c var v); cbn [rbind fst]; [exact Hp|exact Hv].
   Qed.
@@ -620,8 +593,6 @@ Section BindSafe.
     intros Hf Hp. unfold bind_any_attr.
     pose proof (deep_any_attr m q var Hf) as Hd.
     assert (Hr : var_role var = 2%N) by (unfold var_role; rewrite (kind_any_attr m m_kinds q var Hf); reflexivity).
-    assert (Hi : has_init_name m var = true).
-    { apply init_of; [exact Hd|]. unfold v_is. rewrite (kind_any_attr m m_kinds q var Hf). apply orb_true_r. }
     assert (Hnew : forall p0 mp, PInv p0 -> PInv (pset (v_name var) (PV (VMap mp)) p0)).
     { intros p0 mp Hp0. apply PInv_pset; try assumption. rewrite Hr. cbn. eauto. }
     destruct (pmem (v_name var) p) eqn:Hmem.
@@ -663,10 +634,9 @@ Section BindSafe.
     exists r, bind_var var v p = ROk r /\ PInv (snd r).
   Proof.
     intros Hd He Hp. unfold bind_var. destruct (v_init var) eqn:Hi; [|eexists; split; [reflexivity|exact Hp]].
-    assert (Hin : has_init_name m var = true) by (apply init_of; [exact Hd|rewrite Hi; reflexivity]).
     pose proof (role_elemish var He) as Hr.
     destruct (v_list_element var).
-    - destruct (coll_append_ok var (v_factory var) v p Hp Hd Hr Hin) as [p' [-> Hp']]. cbn [rbind].
+    - destruct (coll_append_ok var (v_factory var) v p Hp Hd Hr) as [p' [-> Hp']]. cbn [rbind].
       eexists. split; [reflexivity|exact Hp'].
     - destruct (pmem (v_name var) p); [eexists; split; [reflexivity|exact Hp]|].
       eexists. split; [reflexivity|]. cbn [snd]. apply PInv_pset; try assumption. rewrite Hr. cbn. eauto.
@@ -678,10 +648,9 @@ Section BindSafe.
   Proof.
     intros Hd Hw Hp. unfold bind_wild_var.
     assert (He : elemish var = true) by (unfold elemish; rewrite Hw; apply orb_true_r).
-    assert (Hin : has_init_name m var = true) by (apply init_of; [exact Hd|rewrite Hw; rewrite orb_true_r; reflexivity]).
     pose proof (role_elemish var He) as Hr.
     destruct (v_list_element var).
-    - exact (coll_append_ok var (v_factory var) _ p Hp Hd Hr Hin).
+    - exact (coll_append_ok var (v_factory var) _ p Hp Hd Hr).
     - assert (Hnew : forall x, PInv (pset (v_name var) (PV x) p)).
       { intros x. apply PInv_pset; try assumption. rewrite Hr. cbn. eauto. }
       destruct (pget (v_name var) p) as [pv|] eqn:Hg; [|eexists; split; [reflexivity|apply Hnew]].
@@ -705,19 +674,21 @@ Section BindSafe.
         destruct (fst r); [eexists; split; [reflexivity|exact Hr]|exact (IH (snd r) Hrest Hr)].
   Qed.
 
-  Definition objs_ok (objs : objects) : Prop := Forall (fun x => fst x <> None) objs.
-
   Lemma bind_objects_loop_ok objs : forall p wr ws,
-    objs_ok objs -> PInv p ->
+    PInv p ->
     exists r, bind_objects_loop c m objs p wr ws = ROk r /\ PInv (fst r).
   Proof.
-    induction objs as [|[q v] objs IH]; intros p wr ws Ho Hp; cbn [bind_objects_loop].
+    induction objs as [|[q v] objs IH]; intros p wr ws Hp; cbn [bind_objects_loop].
     - eexists. split; [reflexivity|exact Hp].
-    - inversion Ho as [|x l Hq Hrest]; subst. cbn [fst] in Hq. destruct q as [qn|]; [|contradiction].
-      destruct (wrappers_pop qn wr) as [wrapper wr']. cbn [find_children_opt rbind].
-      destruct (bind_object_loop_ok wrapper (Some qn) v (find_children m qn) p) as [r [-> Hr]]; [|exact Hp|].
-      { intros var Hin. split; [exact (deep_children m qn var Hin)|exact (kind_children m m_kinds qn var Hin)]. }
-      cbn [rbind]. exact (IH (snd r) wr' _ Hrest Hr).
+    - destruct q as [qn|].
+      + destruct (wrappers_pop qn wr) as [wrapper wr']. cbn [find_children_opt rbind].
+        destruct (bind_object_loop_ok wrapper (Some qn) v (find_children m qn) p) as [r [-> Hr]]; [|exact Hp|].
+        { intros var Hin. split; [exact (deep_children m qn var Hin)|exact (kind_children m m_kinds qn var Hin)]. }
+        cbn [rbind]. exact (IH (snd r) wr' _ Hr).
+      + (* a tail entry: bound by nothing *)
+        assert (Hf : find_children_opt m None = ROk []).
+        { unfold find_children_opt. destruct (_ || _); reflexivity. }
+        rewrite Hf. cbn [rbind bind_object_loop fst snd]. exact (IH p wr _ Hp).
   Qed.
 
   (* ---------------------------------------------------------------- text *)
@@ -739,9 +710,8 @@ Section BindSafe.
               else parse_var c (fail_conv_warnings cfg) m var text (en_ns en) None None) as [[v ws]|k];
       cbn [rbind]; [|exact Hr].
     destruct (v_init var) eqn:Hi.
-    - cbn [fst snd]. apply PInv_pset; [exact Hp|exact (deep_text m var Ht)| |].
-      + unfold var_role. rewrite (kind_text m m_kinds var Ht). cbn. eauto.
-      + apply init_of; [exact (deep_text m var Ht)|]. rewrite Hi. reflexivity.
+    - cbn [fst snd]. apply PInv_pset; [exact Hp|exact (deep_text m var Ht)|].
+      unfold var_role. rewrite (kind_text m m_kinds var Ht). cbn. eauto.
     - pose proof (validate_fixed_safe var v) as Hv.
       destruct (validate_fixed c var v); cbn [rbind fst snd]; [exact Hp|exact Hv].
   Qed.
@@ -754,7 +724,6 @@ Section BindSafe.
     pose proof (deep_any_wild m wv Hw) as Hd.
     assert (Hk : v_is KWildcard wv = true) by (unfold v_is; rewrite (kind_any_wild m m_kinds wv Hw); reflexivity).
     assert (He : elemish wv = true) by (unfold elemish; rewrite Hk; apply orb_true_r).
-    assert (Hin : has_init_name m wv = true) by (apply init_of; [exact Hd|rewrite Hk; rewrite orb_true_r; reflexivity]).
     pose proof (role_elemish wv He) as Hr.
     assert (Hmain : exists r, (if v_list_element wv
               then rbind (coll_insert0 (v_name wv) (v_factory wv) (raw_value (normalize_content text)) p) (fun p' => ROk (p', false))
@@ -767,7 +736,7 @@ Section BindSafe.
                                  (parse_any_attributes (en_attrs en) (en_ns en)) [])) p, true)
                    end) = ROk r /\ PInv (fst r)).
     { destruct (v_list_element wv).
-      - destruct (coll_insert0_ok wv (v_factory wv) (raw_value (normalize_content text)) p Hp Hd Hr Hin) as [p' [-> Hp']].
+      - destruct (coll_insert0_ok wv (v_factory wv) (raw_value (normalize_content text)) p Hp Hd Hr) as [p' [-> Hp']].
         cbn [rbind]. eexists. split; [reflexivity|exact Hp'].
       - assert (Hnew : forall x, PInv (pset (v_name wv) (PV x) p)).
         { intros x. apply PInv_pset; try assumption. rewrite Hr. cbn. eauto. }
@@ -780,49 +749,37 @@ Section BindSafe.
   Qed.
 End BindSafe.
 
-Lemma Forall_skipn {A} (P : A -> Prop) n l : Forall P l -> Forall P (skipn n l).
-Proof. revert l. induction n as [|n IH]; intros l H; [exact H|]. destruct l; [exact H|]. inversion H; subst. apply IH. assumption. Qed.
-Lemma Forall_firstn {A} (P : A -> Prop) n l : Forall P l -> Forall P (firstn n l).
-Proof. revert l. induction n as [|n IH]; intros l H; [constructor|]. destruct l; [constructor|]. inversion H; subst. constructor; [assumption|apply IH; assumption]. Qed.
-
-Lemma map_res_ok {A B} (f : A -> res B) l : (forall x, In x l -> exists y, f x = ROk y) -> exists ys, map_res f l = ROk ys.
+Lemma map_res_safe {A B} (f : A -> res B) l : (forall x, In x l -> rsafe (f x)) -> rsafe (map_res f l).
 Proof.
-  induction l as [|x l IH]; intros H; cbn [map_res]; [eauto|].
-  destruct (H x (or_introl eq_refl)) as [y ->]. cbn [rbind].
-  destruct IH as [ys ->]; [intros z Hz; apply H; right; exact Hz|]. cbn [rbind]. eauto.
-Qed.
-
-Lemma existsb_false {A} (f : A -> bool) l : (forall x, In x l -> f x = false) -> existsb f l = false.
-Proof.
-  intros H. destruct (existsb f l) eqn:E; [|reflexivity].
-  apply existsb_exists in E as [x [Hx Hf]]. rewrite (H x Hx) in Hf. discriminate.
+  induction l as [|x l IH]; intros H; cbn [map_res]; [exact I|].
+  pose proof (H x (or_introl eq_refl)) as Hx. destruct (f x) as [y|k]; cbn [rbind]; [|exact Hx].
+  assert (Hl : rsafe (map_res f l)) by (apply IH; intros z Hz; apply H; right; exact Hz).
+  destruct (map_res f l); cbn [rbind]; [exact I|exact Hl].
 Qed.
 
 Section ElementBind.
   Variable cfg : pconfig.
   Variable c : conv.
-  Hypothesis Hreq : all_required_have_defaults cfg = true.
 
   Variable en : enode.
   Hypothesis Hm : meta_ok (en_meta en) = true.
   Local Notation m := (en_meta en).
 
   Lemma bind_content_ok p text tail objs :
-    PInv m p -> objs_ok objs ->
+    PInv m p ->
     match bind_content cfg c en p text tail objs with
-    | ROk r => PInv m (fst (fst (fst r))) /\ objs_ok (snd (fst (fst r)))
+    | ROk r => PInv m (fst (fst (fst r)))
     | RErr k => documented k = true
     end.
   Proof.
-    intros Hp Ho. unfold bind_content.
-    pose proof (Forall_firstn _ (en_position en) objs Ho) as Hfirst.
+    intros Hp. unfold bind_content.
     assert (Hnormal :
       match (rbind (bind_objects_loop c m (skipn (en_position en) objs) p (en_wrappers en) [])
                (fun r => rbind (bind_text cfg c en (fst r) text)
                   (fun t => let '(bt, p', ws') := t in ROk (p', snd r ++ ws', bt)))) with
       | ROk r1 => PInv m (fst (fst r1)) | RErr k => documented k = true end).
     { destruct (bind_objects_loop_ok c m Hm (skipn (en_position en) objs) p (en_wrappers en) [])
-        as [r [-> Hr]]; [apply Forall_skipn; exact Ho|exact Hp|]. cbn [rbind].
+        as [r [-> Hr]]; [exact Hp|]. cbn [rbind].
       pose proof (bind_text_ok cfg c m Hm en eq_refl (fst r) text Hr) as Ht.
       destruct (bind_text cfg c en (fst r) text) as [[[bt p'] ws']|k]; cbn [rbind]; [exact Ht|exact Ht]. }
     destruct (find_any_wildcard m) as [wv|] eqn:Hw.
@@ -832,74 +789,49 @@ Section ElementBind.
                        if bt then ROk (p1, firstn (en_position en) objs, ws1, false)
                        else rbind (bind_wild_text en wv p1 text tail)
                               (fun r2 => ROk (fst r2, firstn (en_position en) objs, ws1, snd r2))) with
-                | ROk r => PInv m (fst (fst (fst r))) /\ objs_ok (snd (fst (fst r)))
+                | ROk r => PInv m (fst (fst (fst r)))
                 | RErr k => documented k = true end).
-      { intros [[p1 ws1] bt] H1. cbn [fst] in H1. destruct bt; [split; [exact H1|exact Hfirst]|].
+      { intros [[p1 ws1] bt] H1. cbn [fst] in H1. destruct bt; [exact H1|].
         destruct (bind_wild_text_ok m Hm en wv p1 text tail Hw H1) as [r2 [-> H2]]. cbn [rbind].
-        split; [exact H2|exact Hfirst]. }
+        exact H2. }
       destruct (v_mixed wv).
       + cbn [rbind].
         pose proof (deep_any_wild m wv Hw) as Hd.
         assert (Hk : v_is KWildcard wv = true) by (unfold v_is; rewrite (kind_any_wild m (m_kinds m Hm) wv Hw); reflexivity).
         assert (HP : forall l, PInv m (pset (v_name wv) (PV (VList false l)) p)).
-        { intros l. apply PInv_pset; [exact Hp|exact Hd| |].
-          * rewrite (role_elemish wv) by (unfold elemish; rewrite Hk; apply orb_true_r).
-            destruct (v_list_element wv); cbn; [right; eauto|eauto].
-          * apply (init_of m Hm); [exact Hd|]. rewrite Hk, orb_true_r. reflexivity. }
+        { intros l. apply PInv_pset; [exact Hp|exact Hd|].
+          rewrite (role_elemish wv) by (unfold elemish; rewrite Hk; apply orb_true_r).
+          destruct (v_list_element wv); cbn; [right; eauto|eauto]. }
         exact (Hstep (_, [], false) (HP _)).
       + destruct (rbind (bind_objects_loop c m (skipn (en_position en) objs) p (en_wrappers en) []) _) as [r1|k];
           cbn [rbind]; [apply Hstep; exact Hnormal|exact Hnormal].
     - destruct (rbind (bind_objects_loop c m (skipn (en_position en) objs) p (en_wrappers en) []) _) as [[[p1 ws1] bt]|k];
         cbn [rbind]; [|exact Hnormal].
-      split; [exact Hnormal|exact Hfirst].
+      exact Hnormal.
   Qed.
 
-  Lemma class_factory_ok p : PInv m p -> exists v, class_factory cfg m (evaluate p) = ROk v.
+  (* cls( **params): the constructor's TypeError (missing required argument, unexpected
+     keyword) is a ParserError *)
+  Lemma class_factory_safe p : rsafe (class_factory cfg m p).
   Proof.
-    intros Hp. unfold class_factory.
-    rewrite existsb_false.
-    - assert (Hnd : match assocN (m_clazz m) (cf_nodefault cfg) with Some l => l | None => [] end = []).
-      { destruct (assocN (m_clazz m) (cf_nodefault cfg)) as [l|] eqn:Ha; [|reflexivity].
-        unfold all_required_have_defaults in Hreq. rewrite forallb_forall in Hreq.
-        specialize (Hreq _ (assocN_In _ _ _ Ha)). cbn [snd] in Hreq. destruct l; [reflexivity|discriminate]. }
-      rewrite Hnd.
-      destruct (map_res_ok (fun v0 =>
-                  match (if v_init v0 then assoc (v_name v0) (evaluate p) else None) with
-                  | Some x => ROk (v_name v0, x)
-                  | None => if v_init v0 && existsb (str_eqb (v_name v0)) [] then RErr (PyTypeError TMissingArg)
-                            else ROk (v_name v0, default_call (v_default v0))
-                  end) (get_all_vars m)) as [fields ->]; [|cbn [rbind]; eauto].
-      intros v0 _. destruct (if v_init v0 then assoc (v_name v0) (evaluate p) else None); [eauto|].
-      cbn [existsb]. rewrite andb_false_r. eauto.
-    - intros [k x] Hin. unfold evaluate in Hin. apply in_map_iff in Hin as [[k0 pv] [E Hin]].
-      cbn [fst snd] in E. injection E as <- _.
-      destruct (Hp _ _ Hin) as [var [_ [Hn [_ Hi]]]]. cbn [fst]. rewrite <- Hn.
-      unfold has_init_name in Hi. rewrite Hi. reflexivity.
+    unfold class_factory. destruct (existsb _ p); [reflexivity|].
+    match goal with |- rsafe (rbind ?X _) => assert (Hs : rsafe X) end.
+    { apply map_res_safe. intros v0 _.
+      destruct (if v_init v0 then assoc (v_name v0) p else None); [exact I|].
+      destruct (v_init v0 && existsb _ _); [reflexivity|exact I]. }
+    destruct (map_res _ (get_all_vars m)); cbn [rbind]; [exact I|exact Hs].
   Qed.
 
-  Lemma append_tail_blank objs tail : normalize_content tail = None -> append_tail objs tail = objs.
-  Proof. unfold append_tail. intros ->. reflexivity. Qed.
-
-  Lemma objs_ok_snoc objs q v : objs_ok objs -> objs_ok (objs ++ [(Some q, v)]).
-  Proof. intros H. apply Forall_app. split; [exact H|]. constructor; [discriminate|constructor]. Qed.
-
-  Lemma element_bind_ok q text tail objs :
-    objs_ok objs -> normalize_content tail = None ->
-    match element_bind cfg c en q text tail objs with
-    | ROk r => objs_ok (fst r)
-    | RErr k => documented k = true
-    end.
+  Lemma element_bind_ok q text tail objs : rsafe (element_bind cfg c en q text tail objs).
   Proof.
-    intros Ho Ht. unfold element_bind.
-    destruct (negb (xsi_nil_true en) || m_nillable m).
-    - pose proof (bind_attrs_loop_ok cfg c m Hm en eq_refl (en_attrs en) [] [] (PInv_nil m)) as Ha.
-      unfold bind_attrs. destruct (bind_attrs_loop cfg c en (en_attrs en) [] []) as [pa|k]; cbn [rbind]; [|exact Ha].
-      pose proof (bind_content_ok (fst pa) text tail objs Ha Ho) as Hc.
-      destruct (bind_content cfg c en (fst pa) text tail objs) as [[[[p objs'] ws2] tp]|k]; cbn [rbind]; [|exact Hc].
-      cbn [fst snd] in Hc. destruct Hc as [Hp Ho'].
-      destruct (class_factory_ok p Hp) as [obj ->]. cbn [rbind fst].
-      rewrite append_tail_blank by exact Ht. destruct tp; apply objs_ok_snoc; exact Ho'.
-    - cbn [rbind fst]. rewrite append_tail_blank by exact Ht. apply objs_ok_snoc. exact Ho.
+    unfold element_bind.
+    destruct (negb (xsi_nil_true en) || m_nillable m); [|exact I].
+    pose proof (bind_attrs_loop_ok cfg c m Hm en eq_refl (en_attrs en) [] [] (PInv_nil m)) as Ha.
+    unfold bind_attrs. destruct (bind_attrs_loop cfg c en (en_attrs en) [] []) as [pa|k]; cbn [rbind]; [|exact Ha].
+    pose proof (bind_content_ok (fst pa) text tail objs Ha) as Hc.
+    destruct (bind_content cfg c en (fst pa) text tail objs) as [[[[p objs'] ws2] tp]|k]; cbn [rbind]; [|exact Hc].
+    pose proof (class_factory_safe (evaluate p)) as Hf.
+    destruct (class_factory cfg m (evaluate p)); cbn [rbind]; [exact I|exact Hf].
   Qed.
 End ElementBind.
 
@@ -907,50 +839,24 @@ Section OtherBinds.
   Variable cfg : pconfig.
   Variable c : conv.
 
-  Lemma primitive_bind_ok m var ns q text tail objs :
-    objs_ok objs -> normalize_content tail = None ->
-    match primitive_bind cfg c m var ns q text tail objs with
-    | ROk r => objs_ok (fst r)
-    | RErr k => documented k = true
-    end.
+  Lemma primitive_bind_ok m var ns q text tail objs : rsafe (primitive_bind cfg c m var ns q text tail objs).
   Proof.
-    intros Ho Ht. unfold primitive_bind.
+    unfold primitive_bind.
     pose proof (parse_var_safe c (fail_conv_warnings cfg) m var text ns None None) as Hs.
-    destruct (parse_var c (fail_conv_warnings cfg) m var text ns None None) as [[obj ws]|k]; cbn [rbind]; [|exact Hs].
-    cbn [fst]. rewrite append_tail_blank by exact Ht. destruct (m_mixed_content m); apply objs_ok_snoc; exact Ho.
+    destruct (parse_var c (fail_conv_warnings cfg) m var text ns None None) as [[obj ws]|k]; cbn [rbind]; [exact I|exact Hs].
   Qed.
 
-  Lemma standard_bind_ok m var ty fmt ns nl dv q text objs :
-    objs_ok objs ->
-    match standard_bind cfg c m var ty fmt None ns nl dv q text objs with
-    | ROk r => objs_ok (fst r)
-    | RErr k => documented k = true
-    end.
+  Lemma standard_bind_ok m var ty fmt wr ns nl dv q text objs :
+    rsafe (standard_bind cfg c m var ty fmt wr ns nl dv q text objs).
   Proof.
-    intros Ho. unfold standard_bind.
+    unfold standard_bind.
     pose proof (parse_var_safe c (fail_conv_warnings cfg) m var text ns (Some [ty]) fmt) as Hs.
     destruct (parse_var c (fail_conv_warnings cfg) m var text ns (Some [ty]) fmt) as [[obj ws]|k]; cbn [rbind]; [|exact Hs].
-    cbn [fst]. apply objs_ok_snoc. exact Ho.
+    destruct wr; exact I.
   Qed.
 
-  Lemma wildcard_bind_ok var attrs ns pos q text tail objs :
-    objs_ok objs -> objs_ok (wildcard_bind var attrs ns pos q text tail objs).
-  Proof.
-    intros Ho. unfold wildcard_bind.
-    pose proof (Forall_firstn _ pos objs Ho) as Hf.
-    destruct (_ || _ || _ || _ || _); apply objs_ok_snoc; exact Hf.
-  Qed.
-
-  Lemma union_bind_ok replay un q text tail objs :
-    objs_ok objs ->
-    match union_bind cfg c replay un q text tail objs with
-    | ROk objs' => objs_ok objs'
-    | RErr k => documented k = true
-    end.
-  Proof.
-    intros Ho. unfold union_bind.
-    destruct (truthy (fst _)); [apply objs_ok_snoc; exact Ho|reflexivity].
-  Qed.
+  Lemma union_bind_ok replay un q text tail objs : rsafe (union_bind cfg c replay un q text tail objs).
+  Proof. unfold union_bind. destruct (truthy (fst _)); [exact I|reflexivity]. Qed.
 End OtherBinds.
 
 (* ================================================================ the state invariant *)
@@ -970,8 +876,7 @@ Fixpoint weight (Q : list node) : nat :=
   end.
 
 Definition Inv (u : universe) (depth : nat) (st : pstate) : Prop :=
-  Forall (node_inv u) (st_queue st) /\ wrap_ok (st_queue st) /\ objs_ok (st_objects st)
-  /\ weight (st_queue st) = depth.
+  Forall (node_inv u) (st_queue st) /\ wrap_ok (st_queue st) /\ weight (st_queue st) = depth.
 
 Section Steps.
   Variable cfg : pconfig.
@@ -981,7 +886,6 @@ Section Steps.
   Variable root : option cls.
   Hypothesis Hu : universe_ok u = true.
   Hypothesis Hroot : root_ok u root = true.
-  Hypothesis Hreq : all_required_have_defaults cfg = true.
 
   Lemma wrap_ok_tail n Q : wrap_ok (n :: Q) -> wrap_ok Q.
   Proof. destruct n; cbn [wrap_ok]; try exact (fun H => H). intros [_ H]. exact H. Qed.
@@ -1062,7 +966,7 @@ Section Steps.
     | RErr k => documented k = true
     end.
   Proof.
-    intros Hxo [Hf [Hwr [Ho Hwt]]]. unfold start.
+    intros Hxo [Hf [Hwr Hwt]]. unfold start.
     destruct (st_queue st) as [|n Q] eqn:Hq.
     - (* root *)
       unfold root_node. pose proof (xsi_type_safe c attrs ns Hxo) as Hx.
@@ -1076,25 +980,25 @@ Section Steps.
       destruct clazz as [cl|]; cbn [rbind]; [|reflexivity].
       destruct (fetch_ok c u Hu cl xt (Hcl cl eq_refl)) as [meta [-> Hin]]. cbn [rbind].
       unfold Inv, push. rewrite Hq. cbn [st_queue st_objects weight wrap_ok].
-      split; [constructor; [exact Hin|constructor]|]. split; [exact I|]. split; [exact Ho|].
+      split; [constructor; [exact Hin|constructor]|]. split; [exact I|].
       rewrite <- Hwt. reflexivity.
     - inversion Hf as [|n0 Q0 Hn HQ]; subst.
       assert (Hpush : forall n', fresh_ok n' ->
                  Inv u (S (weight (n :: Q))) (mk_pstate (n' :: n :: Q) (st_objects st) (st_warn st))).
       { intros n' [Hi [Hnw' Hlv]]. unfold Inv. cbn [st_queue st_objects].
         split; [constructor; [exact Hi|exact Hf]|]. split; [apply wrap_ok_push; assumption|].
-        split; [exact Ho|]. apply weight_fresh. exact Hlv. }
+        apply weight_fresh. exact Hlv. }
       destruct n as [en|m var ns0|m var ty fmt wr ns0 nl dv|var at_ ns0 pos|wq| |un].
       + destruct (is_some (assoc q (m_wrappers (en_meta en)))).
         * unfold Inv, push. rewrite Hq. cbn [st_queue st_objects].
           split; [constructor; [exact I|exact Hf]|]. split; [cbn [wrap_ok]; split; [eauto|exact Hwr]|].
-          split; [exact Ho|]. reflexivity.
+          reflexivity.
         * pose proof (element_child_fresh en q attrs ns (length (st_objects st)) None Hxo Hn) as Hc.
           destruct (element_child cfg c u en q attrs ns (length (st_objects st)) None) as [[n' en2]|k]; cbn [rbind]; [|exact Hc].
           destruct Hc as [[Hi [Hnw' Hlv]] He]. cbn [fst snd] in *.
           unfold Inv. cbn [st_queue st_objects].
           split; [constructor; [exact Hi|constructor; [cbn [node_inv]; rewrite He; exact Hn|exact HQ]]|].
-          split; [apply wrap_ok_push; [exact Hnw'|exact Hwr]|]. split; [exact Ho|].
+          split; [apply wrap_ok_push; [exact Hnw'|exact Hwr]|].
           rewrite weight_fresh by exact Hlv. reflexivity.
       + reflexivity.
       + reflexivity.
@@ -1107,138 +1011,100 @@ Section Steps.
         destruct Hc as [[Hi [Hnw' Hlv]] He]. cbn [fst snd] in *.
         unfold Inv. cbn [st_queue st_objects].
         split; [constructor; [exact Hi|constructor; [exact I|constructor; [cbn [node_inv]; rewrite He; exact Hen|exact HQ1]]]|].
-        split; [apply wrap_ok_push; [exact Hnw'|cbn [wrap_ok]; split; [eauto|exact Hwr2]]|]. split; [exact Ho|].
+        split; [apply wrap_ok_push; [exact Hnw'|cbn [wrap_ok]; split; [eauto|exact Hwr2]]|].
         rewrite weight_fresh by exact Hlv. reflexivity.
       + unfold push. rewrite Hq. apply (Hpush NSkip). split; [exact I|]. split; intros; discriminate.
       + unfold Inv. cbn [st_queue st_objects weight].
-        split; [constructor; [exact I|exact HQ]|]. split; [exact Hwr|]. split; [exact Ho|].
+        split; [constructor; [exact I|exact HQ]|]. split; [exact Hwr|].
         cbn [un_level]. reflexivity.
   Qed.
 
   Lemma pend_ok depth st q text tail :
-    Inv u (S depth) st -> normalize_content tail = None ->
+    Inv u (S depth) st ->
     match pend cfg c replay st q text tail with
     | ROk st' => Inv u depth st'
     | RErr k => documented k = true
     end.
   Proof.
-    intros [Hf [Hwr [Ho Hwt]]] Ht. unfold pend.
+    intros [Hf [Hwr Hwt]]. unfold pend.
     destruct (st_queue st) as [|n Q] eqn:Hq; [discriminate|].
     inversion Hf as [|n0 Q0 Hn HQ]; subst.
     pose proof (wrap_ok_tail _ _ Hwr) as HwQ.
-    assert (Hpop : forall objs ws, objs_ok objs -> weight Q = depth -> Inv u depth (mk_pstate Q objs ws)).
-    { intros objs ws Ho' Hw'. unfold Inv. cbn [st_queue st_objects]. repeat split; assumption. }
-    assert (Hfin : forall r : res (objects * list warning), weight Q = depth ->
-               match r with ROk x => objs_ok (fst x) | RErr k => documented k = true end ->
+    assert (Hpop : forall objs ws, weight Q = depth -> Inv u depth (mk_pstate Q objs ws)).
+    { intros objs ws Hw'. unfold Inv. cbn [st_queue]. repeat split; assumption. }
+    assert (Hfin : forall r : res (objects * list warning), weight Q = depth -> rsafe r ->
                match finish_end Q st r with ROk st' => Inv u depth st' | RErr k => documented k = true end).
     { intros r Hw' Hr. unfold finish_end. destruct r as [x|k]; cbn [rbind]; [|exact Hr]. apply Hpop; assumption. }
     destruct n as [en|m var ns0|m var ty fmt wr ns0 nl dv|var at_ ns0 pos|wq| |un]; cbn [weight] in Hwt.
-    - apply Hfin; [lia|]. apply (element_bind_ok cfg c Hreq en); [|exact Ho|exact Ht].
-      apply (meta_in_ok u Hu). exact Hn.
-    - apply Hfin; [lia|]. apply primitive_bind_ok; assumption.
-    - cbn [node_inv] in Hn. subst wr. apply Hfin; [lia|]. apply standard_bind_ok; assumption.
-    - apply Hpop; [apply wildcard_bind_ok; exact Ho|lia].
-    - apply Hpop; [exact Ho|lia].
-    - apply Hpop; [exact Ho|lia].
+    - apply Hfin; [lia|]. apply (element_bind_ok cfg c en). apply (meta_in_ok u Hu). exact Hn.
+    - apply Hfin; [lia|]. apply primitive_bind_ok.
+    - apply Hfin; [lia|]. apply standard_bind_ok.
+    - apply Hpop; lia.
+    - apply Hpop; lia.
+    - apply Hpop; lia.
     - destruct (un_level un) as [|l] eqn:Hl.
-      + pose proof (union_bind_ok cfg c replay un q text tail (st_objects st) Ho) as Hub.
+      + pose proof (union_bind_ok cfg c replay un q text tail (st_objects st)) as Hub.
         destruct (union_bind cfg c replay un q text tail (st_objects st)); cbn [rbind]; [|exact Hub].
-        apply Hpop; [exact Hub|lia].
-      + unfold Inv. cbn [st_queue st_objects weight un_level].
-        split; [constructor; [exact I|exact HQ]|]. split; [exact HwQ|]. split; [exact Ho|]. lia.
+        apply Hpop; lia.
+      + unfold Inv. cbn [st_queue weight un_level].
+        split; [constructor; [exact I|exact HQ]|]. split; [exact HwQ|]. lia.
   Qed.
 
   Lemma run_ok d : forall depth st,
-    Inv u depth st -> well_nested_from depth d = true -> tails_blank d = true -> xsi_types_ok c d = true ->
-    match run cfg c u replay root st d with
-    | ROk st' => objs_ok (st_objects st')
-    | RErr k => documented k = true
-    end.
+    Inv u depth st -> well_nested_from depth d = true -> xsi_types_ok c d = true ->
+    rsafe (run cfg c u replay root st d).
   Proof.
-    induction d as [|ev d IH]; intros depth st Hi Hn Hb Hx; cbn [run].
-    - destruct Hi as [_ [_ [Ho _]]]. exact Ho.
-    - cbn [tails_blank forallb] in Hb. apply andb_true_iff in Hb as [Hb1 Hb2].
-      cbn [xsi_types_ok forallb] in Hx. apply andb_true_iff in Hx as [Hx1 Hx2].
-      destruct ev as [q attrs ns|q text tail|p uri]; cbn [step well_nested_from] in *.
-      + pose proof (start_ok depth st q attrs ns Hx1 Hi) as Hs.
-        destruct (start cfg c u root st q attrs ns) as [st'|k]; cbn [rbind]; [|exact Hs].
-        exact (IH (S depth) st' Hs Hn Hb2 Hx2).
-      + destruct depth as [|depth']; [discriminate|].
-        assert (Ht : normalize_content tail = None).
-        { destruct (normalize_content tail); [discriminate|reflexivity]. }
-        pose proof (pend_ok depth' st q text tail Hi Ht) as Hs.
-        destruct (pend cfg c replay st q text tail) as [st'|k]; cbn [rbind]; [|exact Hs].
-        exact (IH depth' st' Hs Hn Hb2 Hx2).
-      + cbn [rbind]. exact (IH depth st Hi Hn Hb2 Hx2).
+    induction d as [|ev d IH]; intros depth st Hi Hn Hx; cbn [run]; [exact I|].
+    cbn [xsi_types_ok forallb] in Hx. apply andb_true_iff in Hx as [Hx1 Hx2].
+    destruct ev as [q attrs ns|q text tail|p uri]; cbn [step well_nested_from] in *.
+    - pose proof (start_ok depth st q attrs ns Hx1 Hi) as Hs.
+      destruct (start cfg c u root st q attrs ns) as [st'|k]; cbn [rbind]; [|exact Hs].
+      exact (IH (S depth) st' Hs Hn Hx2).
+    - destruct depth as [|depth']; [discriminate|].
+      pose proof (pend_ok depth' st q text tail Hi) as Hs.
+      destruct (pend cfg c replay st q text tail) as [st'|k]; cbn [rbind]; [|exact Hs].
+      exact (IH depth' st' Hs Hn Hx2).
+    - cbn [rbind]. exact (IH depth st Hi Hn Hx2).
   Qed.
 End Steps.
 
 Lemma Inv_init u : Inv u 0 init_state.
 Proof. unfold Inv, init_state. cbn. repeat split; constructor. Qed.
 
-Lemma finish_documented r :
-  match r with ROk _ => True | RErr k => documented k = true end -> outcome_documented (finish r) = true.
+Lemma finish_documented r : rsafe r -> outcome_documented (finish r) = true.
 Proof.
-  destruct r as [st|k]; cbn [finish outcome_documented]; [intros _|exact (fun H => H)].
+  destruct r as [st|k]; cbn [finish outcome_documented rsafe]; [intros _|exact (fun H => H)].
   destruct (last_error (st_objects st)) as [[q [ ]]|]; reflexivity.
 Qed.
 
+(* the metadata hypothesis: well-formedness of what XmlContext.build exports (checked in Coq on
+   every universe the harness exports) *)
+Definition wf_universe (u : universe) : bool := universe_ok u.
+
 (* the guarded theorem: every event stream, fitting the model or not; all hypotheses are
-   computable booleans *)
-Theorem outcome_documented_guarded : forall n cfg c u root d,
-  universe_ok u = true -> root_ok u root = true ->          (* exported metadata is well formed and closed *)
-  all_required_have_defaults cfg = true ->                   (* clause for TMissingArg *)
-  xsi_types_ok c d = true ->                                 (* clause for TBytesWrapper *)
-  tails_blank d = true ->                                    (* clause for TNoneQname *)
+   computable booleans; the only remaining refutation clause is well_nested *)
+Theorem outcome_documented_main : forall n cfg c u root d,
+  wf_universe u = true -> root_ok u root = true ->          (* exported metadata is well formed and closed *)
+  xsi_types_ok c d = true ->                                 (* the converter resolves xsi:type values to QNames *)
   well_nested d = true ->                                    (* clause for PyIndexError *)
   outcome_documented (parse_n n cfg c u root d) = true.
 Proof.
-  intros n cfg c u root d Hu Hr Hreq Hx Htb Hwn.
+  intros n cfg c u root d Hu Hr Hx Hwn.
   rewrite parse_n_unfold. apply finish_documented.
-  pose proof (run_ok cfg c u (replay_n n c u) root Hu Hr Hreq d 0 init_state (Inv_init u) Hwn Htb Hx) as H.
-  destruct (run cfg c u (replay_n n c u) root init_state d); [exact I|exact H].
+  exact (run_ok cfg c u (replay_n n c u) root Hu Hr d 0 init_state (Inv_init u) Hwn Hx).
 Qed.
 
 Corollary outcome_documented_parse : forall cfg c u root d,
-  universe_ok u = true -> root_ok u root = true ->
-  all_required_have_defaults cfg = true -> xsi_types_ok c d = true -> tails_blank d = true -> well_nested d = true ->
+  wf_universe u = true -> root_ok u root = true -> xsi_types_ok c d = true -> well_nested d = true ->
   outcome_documented (parse cfg c u root d) = true.
-Proof. intros. unfold parse. apply outcome_documented_guarded; assumption. Qed.
-
-(* the metadata hypotheses, split: well-formedness of what XmlContext.build exports (checked in
-   Coq on every universe the harness exports) and the clause for TUnexpectedKw *)
-Definition wf_universe (u : universe) : bool :=
-  forallb (fun cm => kinds_ok (snd cm) && names_ok (snd cm)) (u_metas u) && closed u.
-Definition init_fields_only (u : universe) : bool :=
-  forallb (fun cm => kw_safe (snd cm)) (u_metas u).
-
-Lemma universe_ok_intro u : wf_universe u = true -> init_fields_only u = true -> universe_ok u = true.
-Proof.
-  unfold wf_universe, init_fields_only, universe_ok, meta_ok. intros H1 H2.
-  apply andb_true_iff in H1 as [H1 Hc]. rewrite Hc, andb_true_r.
-  rewrite forallb_forall in *. intros x Hx. rewrite (H1 x Hx), (H2 x Hx). reflexivity.
-Qed.
-
-Theorem outcome_documented_main : forall n cfg c u root d,
-  wf_universe u = true -> root_ok u root = true ->
-  all_required_have_defaults cfg = true ->
-  init_fields_only u = true ->
-  xsi_types_ok c d = true ->
-  tails_blank d = true ->
-  well_nested d = true ->
-  outcome_documented (parse_n n cfg c u root d) = true.
-Proof.
-  intros n cfg c u root d Hwf Hr Hreq Hinit Hx Htb Hwn.
-  apply outcome_documented_guarded; try assumption. apply universe_ok_intro; assumption.
-Qed.
+Proof. intros. unfold parse. apply outcome_documented_main; assumption. Qed.
 
 (* ---------------------------------------------------------------- the oracle of harness/c15.py *)
 (* bits 0,1: c15_code; bit 2: every hypothesis of C15_outcome_documented holds for this case;
    bit 3: the exported metadata is not well formed (the theorem does not speak about this model) *)
 Definition c15_guards (x : corr_case) : bool :=
   let '(cfg, t, u, root, evs, _) := x in
-  wf_universe u && root_ok u root && all_required_have_defaults cfg && xsi_types_ok (conv_of_table t) evs
-  && tails_blank evs && init_fields_only u && well_nested evs.
+  wf_universe u && root_ok u root && xsi_types_ok (conv_of_table t) evs && well_nested evs.
 Definition c15_code_guarded (x : corr_case) : N :=
   let '(_, _, u, _, _, _) := x in
   (c15_code x + (if c15_guards x then 4 else 0) + (if wf_universe u then 0 else 8))%N.
